@@ -2172,7 +2172,10 @@ impl CharacterData for XmlText {
         if self.length() < offset {
             Err(error::DomException::IndexSizeErr)?
         } else {
-            Ok(self.data.borrow().substring(offset..offset.saturating_add(count)))
+            Ok(self
+                .data
+                .borrow()
+                .substring(offset..offset.saturating_add(count)))
         }
     }
 }
@@ -2191,7 +2194,7 @@ impl CharacterDataMut for XmlText {
         if self.length() < offset {
             Err(error::DomException::IndexSizeErr)?
         } else {
-            self.data.borrow_mut().delete(offset, count);
+            self.data.borrow_mut().delete(offset, count)?;
             Ok(())
         }
     }
@@ -2327,7 +2330,10 @@ impl CharacterData for XmlComment {
         if self.length() < offset {
             Err(error::DomException::IndexSizeErr)?
         } else {
-            Ok(self.data.borrow().substring(offset..offset.saturating_add(count)))
+            Ok(self
+                .data
+                .borrow()
+                .substring(offset..offset.saturating_add(count)))
         }
     }
 }
@@ -2346,7 +2352,7 @@ impl CharacterDataMut for XmlComment {
         if self.length() < offset {
             Err(error::DomException::IndexSizeErr)?
         } else {
-            self.data.borrow_mut().delete(offset, count);
+            self.data.borrow_mut().delete(offset, count)?;
             Ok(())
         }
     }
@@ -2511,7 +2517,10 @@ impl CharacterData for XmlCDataSection {
         if self.length() < offset {
             Err(error::DomException::IndexSizeErr)?
         } else {
-            Ok(self.data.borrow().substring(offset..offset.saturating_add(count)))
+            Ok(self
+                .data
+                .borrow()
+                .substring(offset..offset.saturating_add(count)))
         }
     }
 }
@@ -2530,7 +2539,7 @@ impl CharacterDataMut for XmlCDataSection {
         if self.length() < offset {
             Err(error::DomException::IndexSizeErr)?
         } else {
-            self.data.borrow_mut().delete(offset, count);
+            self.data.borrow_mut().delete(offset, count)?;
             Ok(())
         }
     }
